@@ -795,7 +795,7 @@ pub fn run(args: &Args) -> i32 {
     let wanted = |sub: &str| args.wants(sub) && replay_sub.as_deref().map(|r| r == sub).unwrap_or(true);
     if wanted(SUB_DECODER) {
         // the decoder logs every stream-id rejection through sozu's uninitialised logger (stdout)
-        engine::with_quiet_stdout(|| engine::run_pbt(&mut ev, args, SUB_DECODER, args.cases(200_000, 4_000_000), decoder_strategy, decoder_check));
+        engine::with_quiet_stdout(|| engine::run_pbt(&mut ev, args, SUB_DECODER, args.cases(1_000_000, 12_000_000), decoder_strategy, decoder_check));
     }
 
     if wanted("corpus") {
